@@ -3,6 +3,13 @@
 # .vo files Extract.v depends on (built before extraction)
 EXTRACT_DEPS = ['Codec/FilterCase.vo', 'Agent/ReasmRs.vo', 'Agent/Model.vo', 'Agent/Monitors.vo', 'Codec/WireMon.vo', 'Codec/EncodeMsg.vo', 'Proofs/ArcHeapProofs.vo', 'Codec/AttrValue.vo', 'Codec/WireFull.vo', 'Codec/Message.vo', 'Codec/Keys.vo', 'Codec/Ignored.vo', 'Agent/AbsGlue.vo', 'Agent/RttExact.vo']
 
+# which constant-agreement files (Proofs/<name>.v over the generated constants) belong to which property
+CONSTS = {}
+for _p in ('C01', 'C02', 'C03', 'C04', 'C09', 'C10', 'C13', 'C14', 'C16', 'C18', 'C19'):
+    CONSTS.setdefault(_p, []).append('ConstantsCodec')
+for _p in ('C06', 'C08', 'C12', 'C15'):
+    CONSTS.setdefault(_p, []).append('ConstantsAgent')
+
 SUITES = {
     'attrval': dict(bin='attrval', nontrivial=r'^C [DE] '),
     # bin: harness binary; driver: suite name given to ocaml/driver; nontrivial: regex on the record line
@@ -12,8 +19,8 @@ SUITES = {
     # the harness' byte <-> abstract-message glue against the Gallina abstraction function (AbsGlue.abs_packet)
     'absglue': dict(bin='agent', driver='absglue', args=['--glue', '1'], nontrivial=r'^C P \S+ \S+ .*[0-9a-f]{60}'),
     'wire': dict(bin='wire', nontrivial=r'^C (F |\S+ \S{48})'),
-    'encbuf': dict(bin='encbuf', nontrivial=r'^C \d+ \d \S+ \d+ \S+ [pmsf]'),
-    'encbuf-release': dict(bin='encbuf', driver='encbuf', release=True, nontrivial=r'^C \d+ \d \S+ \d+ \S+ [pmsf]'),
+    'encbuf': dict(bin='encbuf', nontrivial=r'^C (T |\d+ \d \S+ \d+ \S+ [pmsf])'),
+    'encbuf-release': dict(bin='encbuf', driver='encbuf', release=True, nontrivial=r'^C (T |\d+ \d \S+ \d+ \S+ [pmsf])'),
     'valueapi': dict(bin='valueapi', nontrivial=r'^C (A|S \S \S*c)'),
     'codecrt': dict(bin='codecrt', nontrivial=r'^C \d+ \d \S+ v'),
     'reasm': dict(bin='reasm', nontrivial=r'^C \d+ \S+ \S+'),
@@ -90,7 +97,7 @@ PROPS = {
                 rule='suite encbuf (debug build with overflow checks, and release build): generated messages (DATA, SOFTWARE, PRIORITY, USE-CANDIDATE, MOBILITY-TICKET '
                      'values, every legal MI/SHA256/FINGERPRINT tail) encoded into buffers of EVERY length 0..needed+8, pre-filled with 0x00, 0xFF and a byte pattern; '
                      'attribute lists of 65,500..65,540, 70,000, 131,072 and 200,000 attribute bytes built from DATA chunks, one value of 65,536 bytes; the whole buffer '
-                     'after the call (md5) is compared with the Gallina encoder, and the harness states whether buffer[size..] still holds the pre-filled bytes (monitor_C14_tail); distinct = distinct records; non-trivial = at least one attribute',
+                     'after the call (md5) is compared with the Gallina encoder, the harness states whether buffer[size..] still holds the pre-filled bytes (monitor_C14_tail) and whether encoding into the byte-inverted buffer gives the same outcome and bytes (monitor_C14_indep); messages of typed attribute values of all kinds (nested / padded encoders over-represented) into every buffer length 0..needed+4; distinct = distinct records; non-trivial = at least one attribute',
                 assumptions=['value encoders of the kinds used write exactly their value after checking the room (checked by the correspondence)']),
     'C15': dict(suites=['agent'], monitors=['C15'], rule=AGENT_RULE + '; one history in ten is a long send/response sequence (20-150 transactions, response delays 1 ms .. 3 s, the next request placed exactly 600 s, 600 s -1/+1 ns after the previous SEND, inside and at the end of the previous request retransmission window + 600 s, and 1300 s later)', assumptions=AGENT_ASSUME),
     'C19': dict(suites=['valueapi'], monitors=['C19clone', 'C19api'],
